@@ -42,7 +42,8 @@ def scen_c17(r):
     sc = Scenario(g, info)
     if r.random() < 0.5:
         gen_api.gen_edits(g, info, r.randint(1, 4))
-    kind = r.choice(['req', 'req', 'detached_col', 'mixed', 'moved_col', 'composite_inline', 'detached_getrefs', 'deleted_twin'])
+    kind = r.choice(['req', 'req', 'detached_col', 'mixed', 'moved_col', 'composite_inline', 'detached_getrefs', 'deleted_twin',
+                     'refused_index', 'side_column_deleted'])
     tabs = info['tables']
     t = r.choice(tabs)
     cols = info['columns'][t]
@@ -86,6 +87,35 @@ def scen_c17(r):
         sc.want(k, TNF, 'SQL of a reference with a detached column raises table-not-found')
         k = g.emit(Op(81, rf))
         sc.want(k, TNF, 'DBML of a reference with a detached column raises table-not-found')
+    elif kind == 'refused_index':
+        # an index offered to a table that does not own its column is refused: it stays detached, and its SQL is refused too
+        others = [x for x in tabs if x != t and not ({g.ops[c_].args[0] for c_ in cols} & {g.ops[c_].args[0] for c_ in info['columns'][x]})]
+        if not others or not cols:
+            return None
+        ix = g.emit(Op(13, V('subjects', [(1, r.choice(cols))]), 'refused', False, None, False, NONE, None))
+        if r.random() < 0.5:
+            g.emit(Op(80, ix))
+        g.emit(Op(52, r.choice(others), ix))
+        k = g.emit(Op(80, ix))
+        sc.want(k, AME, 'SQL of an index whose add_index was refused (it is attached to no table) raises the attribute-missing error')
+    elif kind == 'side_column_deleted':
+        # a reference over ALL the columns of a table, one of which is then deleted from the table: that column is attached to
+        # nothing, the reference still names it
+        t2 = r.choice(tabs)
+        c2s = info['columns'][t2]
+        if len(cols) < 2 or len(c2s) < len(cols) or t2 == t:
+            return None
+        rf = g.emit(Op(15, r.choice(['>', '<', '-']), list(cols), c2s[:len(cols)], None, None, None, None, False))
+        if r.random() < 0.5:
+            g.emit(Op(80, rf))
+        gone = r.choice(cols)
+        if any(g.ops[c_].args[0] == g.ops[gone].args[0] for c_ in cols if c_ != gone):
+            return None
+        g.emit(Op(51, t, V('obj', gone)))
+        k = g.emit(Op(80, rf))
+        sc.want(k, TNF, 'SQL of a reference one of whose columns was deleted from its table raises table-not-found')
+        k = g.emit(Op(81, rf))
+        sc.want(k, TNF, 'DBML of a reference one of whose columns was deleted from its table raises table-not-found')
     elif kind == 'mixed':
         if len(tabs) < 2:
             return None
@@ -209,6 +239,11 @@ def scen_c16(r):
         s_ = g.emit(Op(18, 'lonely note', 'text'))
         info['added'][s_] = g.emit(Op(30, 0, db, s_))
         info['stickies'].append(s_)
+    if info['project'] is not None and r.random() < 0.3:
+        # setting the project that is already the current one: it stays the attached project
+        info['added'][info['project']] = g.emit(Op(30, r.choice([0, 5]), db, info['project']))
+    if r.random() < 0.2:
+        gen_api.gen_rejected(g, info, r.randint(1, 2))      # refused operations change nothing
     twins = []
     for rf in info['refs'][:2]:
         op = g.ops[rf]
@@ -315,6 +350,37 @@ def rebuild_and_compare(sc):
         if i >= first_obs and t2 != outs[i]:
             fails.append(('replay-without-earlier-renderings', repr(op), outs[i][:600], t2[:600]))
             break
+    # (c) the final content is what the script built and assigned: every scalar attribute holds the value given to the
+    # constructor or assigned last (no operation rewrites an attribute it was not asked to)
+    CTOR = {12: {'name': 0, 'type': 1, 'unique': 2, 'not_null': 3, 'pk': 4, 'autoinc': 5, 'comment': 8},
+            14: {'name': 0, 'schema': 1, 'alias': 2, 'header_color': 6, 'comment': 7, 'abstract': 8},
+            15: {'type': 0, 'name': 3, 'comment': 4, 'on_update': 5, 'on_delete': 6, 'inline': 7},
+            17: {'name': 0, 'schema': 2, 'comment': 3}}
+    expected = {}
+    for i, op in enumerate(sc.g.ops):
+        if op.code in CTOR and outs[i] == 'obj':
+            expected[i] = {}
+            for an, pos in CTOR[op.code].items():
+                a_ = op.args[pos]
+                expected[i][an] = it.val(a_) if isinstance(a_, pyscript.V) else a_
+        elif op.code == 60 and outs[i] == 'ok' and op.args[0] in expected:
+            an = pyscript.ATTRS.get(pyscript.bt(it.slots[op.args[0]]), {}).get(op.args[1])
+            if an in expected[op.args[0]]:
+                expected[op.args[0]][an] = it.val(op.args[2])
+    for i, exp_ in expected.items():
+        ob_ = it.slots[i]
+        for an, ev in exp_.items():
+            if an == 'inline':
+                ev = bool(ev) and exp_.get('type') != '<>'
+            if an == 'name' and sc.g.ops[i].code == 15:
+                ev = ev or None          # Reference(name='') stores None
+            try:
+                gv = getattr(ob_, an)
+            except Exception as e:   # noqa
+                gv = 'raise ' + pyscript.exc_name(e)
+            if not (gv is ev or (type(gv) is type(ev) and gv == ev)):
+                fails.append(('attribute', '%s.%s of the object built by %r' % (type(ob_).__name__, an, sc.g.ops[i]), repr(gv)[:200], repr(ev)[:200]))
+                break
     for slot, kind, idx in sc.obs:
         obj = it.slots[slot]
         twin = mapping.get(id(obj))
